@@ -6,9 +6,16 @@ systems over Ekit/Conc/System.lean + Basic.lean, any number of threads, any inte
 methods as written in syncx/limit_pool.go and syncx/segment_key_lock.go).  Helper lemmas:
 Ekit/Lemmas/LimitPool.lean, Ekit/Lemmas/SegmentLock.lean.
 
-Range assumptions of the LimitPool theorems (`Cfg.Ok`): `0 ≤ maxTokens < 2^31` (the constructor
-converts `int` to `int32`; a larger value is truncated) and at most `2^31` goroutines (the `int32`
-counter wraps once 2^31+1 failing Gets sit between their decrement and their compensation).
+Range assumptions of the LimitPool theorems (`Cfg.Ok`): `0 ≤ maxTokens < 2^31` and at most `2^31`
+goroutines (the `int32` counter wraps once 2^31+1 failing Gets sit between their decrement and
+their compensation).  The property quantifies over "all maxTokens ≥ 0", so with respect to that
+quantifier the positive LimitPool theorems are **partial** (`_partial` in their doc comments / names
+where the conclusion really fails outside the range): the constructor converts `int` to `int32`,
+and for `2^31 < maxTokens < 2^32` (more generally whenever the truncated value is ≤ 0) the counter
+starts non-positive and no Get ever succeeds — known finding **C14-T**, with its negative-witness
+theorem `c14_limitPool_truncation_witness` below and a reproduction on the real code in every run
+of the check.  (`maxTokens = 2^31` itself happens to behave correctly: the counter starts at −2^31,
+the first `Add(-1)` wraps to 2^31−1, and exactly 2^31 Gets succeed.)
 SegmentKeysLock theorems require `size ≠ 0` (`size = 0` makes `hash % size` panic at first use;
 see `c14_segment_size_zero_panics`), which is the property's own quantifier (size ≥ 1).
 
@@ -32,14 +39,16 @@ open Ekit.Conc
 /-- **Bookkeeping** ("tokens are conserved", instantaneous form): in every reachable state — any
     number of threads, any interleaving of the atomic steps of Get and Put —
     `tokens = maxTokens − outstanding − failing` holds as an equation between integers (the int32
-    never wrapped). -/
+    never wrapped).  Partial w.r.t. "all maxTokens ≥ 0": needs `maxTokens < 2^31` (C14-T). -/
 theorem c14_limitPool_bookkeeping (cfg : Cfg) (ok : cfg.Ok) (s : State) (hr : (sys cfg).Reachable s) :
     s.tokens.toInt = cfg.maxTokens - outstanding s - failing s :=
   (inv_reachable cfg ok s hr).tok
 
 /-- **"LimitPool never has more than maxTokens successful Gets outstanding"** — at every instant
     of every schedule.  `outstanding` counts a Get from the moment its sign test passed until the
-    matching Put has re-added the token. -/
+    matching Put has re-added the token.  Proved under `Cfg.Ok` (`maxTokens < 2^31`); beyond that
+    range this half of the property is not contradicted by C14-T (no Get succeeds at all) but is
+    not proved here. -/
 theorem c14_limitPool_outstanding_le_max (cfg : Cfg) (ok : cfg.Ok) (s : State) (hr : (sys cfg).Reachable s) :
     (outstanding s : Int) ≤ cfg.maxTokens :=
   (inv_reachable cfg ok s hr).bound
@@ -58,16 +67,19 @@ theorem c14_limitPool_outstanding_le_max_run (cfg : Cfg) (ok : cfg.Ok) (sched : 
 
 /-- **"tokens are conserved: once everything borrowed has been Put back …"**: at quiescence with
     nothing borrowed the counter is back at `maxTokens`, whatever interleaving of Gets, failed Gets
-    and Puts occurred before. -/
-theorem c14_limitPool_conserved (cfg : Cfg) (ok : cfg.Ok) (s : State) (hr : (sys cfg).Reachable s)
+    and Puts occurred before.
+    `_partial`: proved for `maxTokens < 2^31` (`Cfg.Ok`); for larger values the conclusion is false
+    (the counter starts at the truncated value) — known finding C14-T. -/
+theorem c14_limitPool_conserved_partial (cfg : Cfg) (ok : cfg.Ok) (s : State) (hr : (sys cfg).Reachable s)
     (q : Quiescent s) (hb : s.borrowed = 0) : s.tokens.toInt = cfg.maxTokens := by
   have := quiescent_tokens cfg s (inv_reachable cfg ok s hr) q
   simpa [hb] using this
 
 /-- **"… exactly maxTokens further Gets succeed"**: from such a state, `n` further uninterrupted
     Gets (by any thread `t`) return `true` exactly `min n maxTokens` times — the first `maxTokens`
-    of them — and `false` afterwards. -/
-theorem c14_limitPool_exactly_max_gets (cfg : Cfg) (ok : cfg.Ok) (s : State) (hr : (sys cfg).Reachable s)
+    of them — and `false` afterwards.
+    `_partial`: proved for `maxTokens < 2^31`; false beyond (`c14_limitPool_truncation_witness`). -/
+theorem c14_limitPool_exactly_max_gets_partial (cfg : Cfg) (ok : cfg.Ok) (s : State) (hr : (sys cfg).Reachable s)
     (q : Quiescent s) (hb : s.borrowed = 0) (t : Nat) (ht : t < s.pcs.length) (n : Nat) :
     ∃ s', getMany cfg s t n = some (s',
       List.replicate (min n cfg.maxTokens.toNat) true ++ List.replicate (n - cfg.maxTokens.toNat) false) := by
@@ -75,8 +87,9 @@ theorem c14_limitPool_exactly_max_gets (cfg : Cfg) (ok : cfg.Ok) (s : State) (hr
   simpa [hb] using this
 
 /-- No spurious failure without contention: at any quiescent reachable state a Get succeeds iff
-    fewer than `maxTokens` objects are borrowed, and a failed Get leaves the state unchanged. -/
-theorem c14_limitPool_sequential_get (cfg : Cfg) (ok : cfg.Ok) (s : State) (hr : (sys cfg).Reachable s)
+    fewer than `maxTokens` objects are borrowed, and a failed Get leaves the state unchanged.
+    `_partial`: proved for `maxTokens < 2^31`; false beyond (`c14_limitPool_truncation_witness`). -/
+theorem c14_limitPool_sequential_get_partial (cfg : Cfg) (ok : cfg.Ok) (s : State) (hr : (sys cfg).Reachable s)
     (q : Quiescent s) (t : Nat) (ht : t < s.pcs.length) :
     getCall cfg s t false =
       if (s.borrowed : Int) < cfg.maxTokens then
@@ -136,10 +149,36 @@ example : ∃ s, (sys cfg1).run (sys cfg1).init (spuriousSchedule ++ [.act 0 .ge
 example : ∃ s, (sys cfg1).run (sys cfg1).init [.spawn, .act 0 .getDec] = some s ∧ (outstanding s : Int) = cfg1.maxTokens := by
   refine ⟨_, rfl, ?_⟩; decide
 
-/-- outside the stated range the constructor truncates: `NewLimitPool(2^31, …)` starts with a
-    negative counter and every Get fails (reported as a finding about the quantifier
-    "all maxTokens ≥ 0"; not reachable with `int32`-sized arguments) -/
-example : (init { maxTokens := 2147483648, maxThreads := 1 }).tokens.toInt = -2147483648 := by decide
+/-! #### known finding C14-T: `maxTokens ≥ 2^31` is truncated to `int32` (negative witness) -/
+
+/-- `NewLimitPool(2^31 + 1, …)`: inside the property's quantifier, outside `Cfg.Ok` -/
+def cfgT : Cfg := { maxTokens := 2147483649, maxThreads := 1 }
+
+/-- the state after the constructor and one goroutine appearing -/
+def sT : State := { tokens := BitVec.ofInt 32 (-2147483647), pcs := [.idle], borrowed := 0, pooled := 0, created := 0 }
+
+/-- **Negative witness (C14-T).** With `maxTokens = 2^31 + 1` the counter starts at −(2^31 − 1):
+    the state `sT` is reachable with nothing outstanding and nobody inside a method, and the very
+    first `Get` fails (and restores the state), although 0 of `maxTokens` objects are outstanding —
+    contradicting "exactly maxTokens further Gets succeed". -/
+theorem c14_limitPool_truncation_witness :
+    (sys cfgT).run (sys cfgT).init [.spawn] = some sT ∧ Quiescent sT ∧ outstanding sT = 0 ∧
+    (0 : Int) < cfgT.maxTokens ∧ getCall cfgT sT 0 false = some (sT, false) := by
+  refine ⟨by decide, by decide, by decide, by decide, by decide⟩
+
+/-- …hence *no* Get ever succeeds: any number of consecutive Gets all fail. -/
+theorem c14_limitPool_truncation_all_fail (n : Nat) :
+    getMany cfgT sT 0 n = some (sT, List.replicate n false) := by
+  induction n with
+  | zero => rfl
+  | succ n ih =>
+    have h := c14_limitPool_truncation_witness.2.2.2.2
+    simp only [getMany, h, ih, Option.map, List.replicate_succ]
+
+/-- the boundary value `maxTokens = 2^31` starts at −2^31 and is rescued by the wrap of the first
+    decrement (2^31 − 1 ≥ 0): the first Get succeeds -/
+example : (init { maxTokens := 2147483648, maxThreads := 1 }).tokens.toInt = -2147483648 ∧
+    (add32 (init { maxTokens := 2147483648, maxThreads := 1 }).tokens (-1)).toInt = 2147483647 := by decide
 
 end Ekit.LimitPool
 
